@@ -5,7 +5,7 @@
 use crate::lang::*;
 
 pub const NAMES: [&str; 11] = ["lambda_0", "lambda_1", "record_update_temp", "__dt0", "_mimium_global", "dsp_", "state", "mem_", "x1", "é", "LONG"];
-pub const TMAX: u64 = 400;
+pub const TMAX: u64 = 640;
 
 fn long_name() -> String {
     "n".repeat(300)
@@ -425,6 +425,53 @@ fn layout(src: &str, which: usize) -> String {
     }
 }
 
+/// single-gap layout deviations of a printed program: at every boundary between two tokens a block comment; at the
+/// boundaries that lie inside brackets also a line break, and a line comment followed by a line break
+/// (`(byte offset of the gap, what is inserted, name)`)
+pub fn gap_variants(src: &str) -> Vec<(usize, &'static str, &'static str)> {
+    use mimium_lang::compiler::parser::{self, TokenKind as K};
+    let Ok(toks) = std::panic::catch_unwind(|| parser::tokenize(src)) else { return vec![] };
+    let toks: Vec<_> = toks.into_iter().filter(|t| !matches!(t.kind, K::Whitespace | K::LineBreak | K::SingleLineComment | K::MultiLineComment | K::Eof)).collect();
+    let mut v = vec![];
+    let mut depth = 0i32;
+    for w in toks.windows(2) {
+        match w[0].kind {
+            K::ParenBegin | K::ArrayBegin | K::BlockBegin => depth += 1,
+            K::ParenEnd | K::ArrayEnd | K::BlockEnd => depth -= 1,
+            _ => {}
+        }
+        // the gap between w[0] and w[1]; a closing bracket next belongs to the bracket
+        let inside = depth > 0;
+        let at = w[0].start + w[0].length;
+        // (a float literal followed by a dot-less token etc. is unaffected: the insertion has spaces around it)
+        v.push((at, " /* g */ ", "block_comment"));
+        // line breaks only inside parentheses / square brackets: inside braces they separate statements
+        if inside && paren_depth_only(&toks, w[0].start) {
+            v.push((at, "\n", "line_break"));
+            v.push((at, " // g\n", "line_comment"));
+        }
+    }
+    v
+}
+/// is the position directly enclosed by `(` or `[` (not by `{`)?
+fn paren_depth_only(toks: &[mimium_lang::compiler::parser::Token], upto: usize) -> bool {
+    use mimium_lang::compiler::parser::TokenKind as K;
+    let mut stack: Vec<K> = vec![];
+    for t in toks {
+        if t.start > upto {
+            break;
+        }
+        match t.kind {
+            K::ParenBegin | K::ArrayBegin | K::BlockBegin => stack.push(t.kind),
+            K::ParenEnd | K::ArrayEnd | K::BlockEnd => {
+                stack.pop();
+            }
+            _ => {}
+        }
+    }
+    matches!(stack.last(), Some(K::ParenBegin | K::ArrayBegin))
+}
+
 pub struct Variant {
     pub source: String,
     pub kind: &'static str,
@@ -434,6 +481,10 @@ pub struct Variant {
 
 /// the t-th deviation-1 transformation of `p` (None if t is beyond the number of transformations)
 pub fn nth(p: &Prog, t: u64) -> Option<Variant> {
+    nth_with(p, t, false)
+}
+/// `gaps`: also the single-gap layout deviations (between the whole-program layouts and the annotations)
+pub fn nth_with(p: &Prog, t: u64, gaps: bool) -> Option<Variant> {
     let ids = identifiers(p);
     let nren = ids.len() as u64 * NAMES.len() as u64;
     if t < nren {
@@ -460,7 +511,49 @@ pub fn nth(p: &Prog, t: u64) -> Option<Variant> {
         let src = print(p);
         return Some(Variant { source: layout(&src, t as usize), kind: "layout", what: LAYOUTS[t as usize].into(), tags: vec!["layout".into(), format!("layout_{}", LAYOUTS[t as usize])] });
     }
-    let t = t - LAYOUTS.len() as u64;
+    let mut t = t - LAYOUTS.len() as u64;
+    if gaps {
+        let src = print(p);
+        let gv = gap_variants(&src);
+        if t < gv.len() as u64 {
+            let (at, ins, name) = gv[t as usize];
+            let mut out = src.clone();
+            out.insert_str(at, ins);
+            let line = src[..at].matches('\n').count() + 1;
+            // the tokens around the gap (first characters)
+            let before: String = src[..at].chars().rev().take_while(|c| !c.is_whitespace()).collect::<Vec<_>>().into_iter().rev().collect();
+            let after: String = src[at..].trim_start().chars().take(1).collect();
+            let mut tags = vec!["layout".to_string(), "gap".into(), format!("gap_{name}")];
+            // (a `)` that closes the condition of an `if` is not an expression that a `(` could continue)
+            let closes_if_condition = || {
+                let b = src[..at].trim_end().as_bytes();
+                if b.last() != Some(&b')') {
+                    return false;
+                }
+                let (mut depth, mut k) = (0i32, b.len());
+                while k > 0 {
+                    k -= 1;
+                    match b[k] {
+                        b')' => depth += 1,
+                        b'(' => {
+                            depth -= 1;
+                            if depth == 0 {
+                                break;
+                            }
+                        }
+                        _ => {}
+                    }
+                }
+                src[..k].trim_end().ends_with("if")
+            };
+            if name != "block_comment" && (after == "(" || after == "[" || after == ".") && before.chars().last().map(|c| c.is_alphanumeric() || c == ')' || c == ']' || c == '_').unwrap_or(false) && !closes_if_condition() && !["if", "else", "(if", "let", "letrec"].contains(&before.trim_start_matches('(')) && before.trim_start_matches('(') != "if" {
+                // between an expression and the `(` / `[` / `.` that continues it
+                tags.push("line_break_before_postfix".into());
+            }
+            return Some(Variant { source: out, kind: "gap", what: format!("{name} inserted at byte {at} (line {line}), between `{before}` and `{after}`"), tags });
+        }
+        t -= gv.len() as u64;
+    }
     let (q, what) = annotate(p, t)?;
     Some(Variant { source: print(&q), kind: "annotation", what, tags: vec!["annotation".into()] })
 }
